@@ -49,6 +49,9 @@ class VecFold(Fold):
         super().__init__(func, **kw)
         self.havocs = []
 
+    def is_vec_type(self, t):
+        return is_vec(t)
+
     # ---------------------------------------------------------------- helpers
     def vec_decl_of(self, n, env):
         """decl id when n is (a reference to) a tracked vector local"""
@@ -57,7 +60,7 @@ class VecFold(Fold):
             n = unwrap(n["sub"])
         if n is not None and n.get("k") == "ref" and n.get("decl") in env and isinstance(env[n["decl"]], EVec):
             return n["decl"]
-        if n is not None and n.get("k") == "member" and is_vec(n.get("type") or "") and unwrap(n.get("obj") or {"k": "this"}).get("k") in ("this", None):
+        if n is not None and n.get("k") == "member" and self.is_vec_type(n.get("type") or "") and unwrap(n.get("obj") or {"k": "this"}).get("k") in ("this", None):
             key = ("field", show(n))
             if key not in env:
                 env[key] = EVec(F("at")(S(show(n)), K))
@@ -123,7 +126,7 @@ class VecFold(Fold):
     def stmt(self, s, env):
         if s is not None and s.get("k") == "decl":
             for d in s["decls"]:
-                if is_vec(d.get("type") or ""):
+                if self.is_vec_type(d.get("type") or ""):
                     if d.get("init") is not None:
                         v = self.ev(d["init"], env)
                         env[d["decl"]] = self.wrap(v, d["name"])
@@ -135,24 +138,24 @@ class VecFold(Fold):
         return super().stmt(s, env)
 
     def ev_member(self, n, env):
-        if is_vec(n.get("type") or ""):
+        if self.is_vec_type(n.get("type") or ""):
             key = self.vec_decl_of(n, env)
             if key is not None:
                 return env[key]
         return super().ev_member(n, env)
 
     def ev_ref(self, n, env):
-        if n.get("dk") in ("local", "param", "staticlocal") and is_vec(n.get("type") or "") and n.get("decl") not in env:
+        if n.get("dk") in ("local", "param", "staticlocal") and self.is_vec_type(n.get("type") or "") and n.get("decl") not in env:
             env[n["decl"]] = EVec(F("at")(S(n["name"]), K))
         return super().ev_ref(n, env)
 
     def store(self, lhs, val, env, node):
         lhs = unwrap(lhs)
         k = lhs.get("k")
-        if k == "ref" and lhs.get("dk") in ("local", "param", "staticlocal") and is_vec(lhs.get("type") or ""):
+        if k == "ref" and lhs.get("dk") in ("local", "param", "staticlocal") and self.is_vec_type(lhs.get("type") or ""):
             env[lhs["decl"]] = self.wrap(val, lhs["name"])
             return
-        if k == "member" and is_vec(lhs.get("type") or ""):
+        if k == "member" and self.is_vec_type(lhs.get("type") or ""):
             key = ("field", show(lhs))
             env[key] = self.wrap(val, show(lhs))
             self.event({"kind": "store", "target": show(lhs), "field": lhs.get("field"), "value": val, "node": node}, env)
@@ -305,26 +308,41 @@ class VecFold(Fold):
         if k == "for":
             iv = self.full_range(s, env)
             carried = {c for c in self.assigned_in(s["body"]) if c not in body_decls}
-            if iv is not None and all(isinstance(env.get(c), EVec) for c in carried):
-                # element-wise loop: every element store must use the induction variable itself (checked in store())
+            if iv is not None:
+                # element-wise loop: every element store must use the induction variable itself (checked in store());
+                # scalars carried around the loop are folded as in a generic loop (acc0 + SUM(term), the index being K)
                 if any(x.get("k") in ("break",) for x in walk(s["body"])):
                     for c in carried:
-                        env[c] = self.havoc(c, s, "loop with break")
+                        if isinstance(env.get(c), EVec):
+                            env[c] = self.havoc(c, s, "loop with break")
                     return
+                lid = "L%d" % s.get("line", 0)
                 cond = self.ev(s["cond"]["rhs"] if unwrap(s["cond"]).get("k") == "binop" else s["cond"], env)
+                start = {}
+                for c in carried:
+                    if c in env and not isinstance(env[c], EVec):
+                        old = env[c]
+                        if isinstance(old, (sp.Matrix, tuple)):
+                            continue
+                        a_ = S("%s@%s" % (self.keyname(c), lid))
+                        start[c] = (old, a_)
+                        env[c] = a_
                 env[iv] = K
                 mark = len(self.guards)
-                self.guards.append((("each", "L%d" % s.get("line", 0), cond), True, s))
+                self.guards.append((("each", lid, cond), True, s))
+                self.begin_loop()
                 try:
                     self.stmt(s["body"], env)
-                except LoopBreak:
-                    pass
                 except Terminated:
                     pass
+                self.end_loop(env)
                 del self.guards[mark:]
                 env.pop(iv, None)
                 for bd in body_decls:
                     env.pop(bd, None)
+                for c, (old, a_) in start.items():
+                    new_ = env.get(c)
+                    env[c] = old if new_ is None else self.loop_result(old, a_, new_, lid, c)
                 return
         if k == "rangefor":
             d = self.vec_decl_of(s.get("range"), env)
@@ -335,10 +353,12 @@ class VecFold(Fold):
                     env[v["decl"]] = env[d].e
                     mark = len(self.guards)
                     self.guards.append((("each", "L%d" % s.get("line", 0), None), True, s))
+                    self.begin_loop()
                     try:
                         self.stmt(s["body"], env)
                     except Terminated:
                         pass
+                    self.end_loop(env)
                     del self.guards[mark:]
                     t = v.get("type") or ""
                     if v["decl"] in self.assigned_in(s["body"]):
